@@ -8,6 +8,7 @@ import BiscuitModel.Model.Keys
 import BiscuitModel.Model.Untrusted
 import BiscuitModel.Model.CApi
 import BiscuitModel.Model.TermParser
+import BiscuitModel.Model.ExprParser
 import BiscuitModel.Model.WireDec
 open Lean Biscuit Biscuit.Codec
 
@@ -611,6 +612,47 @@ def runTermParse (j : Json) : P Json := do
 
 end TermParseOp
 
+/-! ### exprparse (C14): the expression parser model on arbitrary text -/
+section ExprParseOp
+open Biscuit.Printer Biscuit.TermParser Biscuit.ExprParser
+
+def unNameX : Un → String × Option String
+  | .negate => ("negate", none) | .parens => ("parens", none) | .length => ("length", none) | .typeOf => ("type", none)
+  | .ffi n => ("ffi", some n)
+
+def binNameX : Bin → String × Option String
+  | .lt => ("lt", none) | .gt => ("gt", none) | .le => ("le", none) | .ge => ("ge", none) | .eq => ("eq", none)
+  | .contains => ("contains", none) | .prefix => ("prefix", none) | .suffix => ("suffix", none) | .regex => ("regex", none)
+  | .add => ("add", none) | .sub => ("sub", none) | .mul => ("mul", none) | .div => ("div", none) | .and => ("and", none)
+  | .or => ("or", none) | .intersection => ("intersection", none) | .union => ("union", none) | .band => ("band", none)
+  | .bor => ("bor", none) | .bxor => ("bxor", none) | .ne => ("ne", none) | .heq => ("heq", none) | .hne => ("hne", none)
+  | .lazyAnd => ("lazyand", none) | .lazyOr => ("lazyor", none) | .all => ("all", none) | .any => ("any", none)
+  | .get => ("get", none) | .ffi n => ("ffi", some n)
+
+def optStrJ : Option String → Json
+  | some s => Json.str s
+  | none => Json.null
+
+partial def etreeJ : ETree → Json
+  | .val t => Json.mkObj [("val", stermJ t)]
+  | .un u a => let (n, x) := unNameX u; Json.mkObj [("un", n), ("name", optStrJ x), ("a", etreeJ a)]
+  | .bin b l r => let (n, x) := binNameX b; Json.mkObj [("bin", n), ("name", optStrJ x), ("l", etreeJ l), ("r", etreeJ r)]
+  | .clo ps body => Json.mkObj [("clo", Json.arr (ps.map Json.str).toArray), ("body", etreeJ body)]
+
+def runExprParse (j : Json) : P Json := do
+  let text ← (← field j "text").getStr?
+  let dates ← (← getArr (← field j "dates")).mapM fun d => do
+    match ← getArr d with
+    | [t, v] => pure ((← t.getStr?).toList, ← getNat v)
+    | _ => throw "bad date entry"
+  let dateP : List Char → Option Nat := fun tok => (dates.find? (fun e => e.1 == tok)).map (·.2)
+  match parseExpr dateP text.toList with
+  | .ok e rest => pure (Json.mkObj [("r", "ok"), ("rest", Json.num (JsonNumber.fromNat rest.length)), ("tree", etreeJ e)])
+  | .err => pure (Json.mkObj [("r", "err")])
+  | .fail => pure (Json.mkObj [("r", "fail")])
+
+end ExprParseOp
+
 /-! ### keys (C17) -/
 section KeysOp
 open Biscuit.Keys
@@ -900,6 +942,7 @@ def handle (line : String) : String :=
       | "params" => runParams j
       | "keys" => runKeys j
       | "termparse" => runTermParse j
+      | "exprparse" => runExprParse j
       | "untrusted" => runUntrusted j
       | "macros" => runMacros j
       | "capi" => runCApi j
